@@ -4,7 +4,7 @@
 From Coq Require Import String Ascii List Bool Arith ZArith.
 Import ListNotations.
 Require Import Generated PyBase PyStr Lex Format Symbols Split SplitFacts SplitChunks SplitChunksFacts Merge ParseEq ParseEqFacts
-               ParseModel ParseModelFacts ParseModelExamples ParseContribFacts FormatDecideFacts.
+               ParseModel ParseModelFacts ParseModelExamples ParseContribFacts FormatDecideFacts SplitInsertFacts.
 Open Scope string_scope.
 
 Definition ordinary : string :=
@@ -66,3 +66,15 @@ Proof. vm_compute. reflexivity. Qed.
 (* the converse fails: a stray "{" is usually a plain ParserError (decided) *)
 Example stray_brace_decided : has_stray_open "Y = {0}" = true /\ parse_model_nocheck "Y = {0}" = PErr ParserError.
 Proof. vm_compute. split; reflexivity. Qed.
+
+(* blank_line_between_statements_irrelevant: its premises on a concrete pair of scripts *)
+Example blank_insert_hyps :
+  let s1 := lines ["Y = X"; "Z = W"] in let s2 := lines ["Y = X"; "  # note"; "Z = W"] in
+  model_lines s1 = (["Y = X"] ++ ["Z = W"])%list /\ model_lines s2 = (["Y = X"] ++ "" :: ["Z = W"])%list /\
+  final_state s0 ["Y = X"] = Some (mkS 0 true []) /\ is_blank "" = true /\
+  parse_model_nocheck s2 = parse_model_nocheck s1.
+Proof. vm_compute. repeat split; reflexivity. Qed.
+(* … and the premise "no bracket / fence open" is needed: inside a fenced block a blank line is part of the code *)
+Example blank_inside_fence_matters :
+  parse_model_nocheck (lines ["```"; "x = 1"; ""; "```"]) <> parse_model_nocheck (lines ["```"; "x = 1"; "```"]).
+Proof. vm_compute. discriminate. Qed.
